@@ -241,12 +241,21 @@ struct Thread {
         for (size_t i = 0; i < len; ++i) {
             int op = menu.empty() ? (int)rng.below(O_COUNT) : menu[rng.below(menu.size())];
             f.byte((unsigned)op);
-            step(op);
+            // an exception that an operation lets escape is a result like any other (same kind in both runs, or a difference)
+            try { step(op); }
+            catch (const ST::unicode_error &) { f.byte(0xF1); }
+            catch (const ST::codec_error &) { f.byte(0xF2); }
+            catch (const ST::bad_format &) { f.byte(0xF3); }
+            catch (const std::out_of_range &) { f.byte(0xF4); }
+            catch (const std::invalid_argument &) { f.byte(0xF5); }
+            catch (const std::bad_alloc &) { f.byte(0xF6); }
+            catch (const std::exception &) { f.byte(0xF7); }
             tr.after.push_back(f.h); tr.op.push_back((uint8_t)op);
             if (ymode == 1 && yrng.chance(1, 6)) sched_yield();
         }
         if (fp) flush_mem();
-        d(ss.to_string()); for (auto &l : loc) d(l);
+        try { d(ss.to_string()); } catch (const ST::unicode_error &) { f.byte(0xF1); }    // a slice may have cut a multi-byte sequence
+        for (auto &l : loc) d(l);
         tr.final = f.h;
     }
 };
@@ -371,7 +380,7 @@ void gen(vh::Emitter &em, const vh::Options &opt) {
         em.emit(s);
     };
     // every mix x thread count x start discipline
-    int reps = thorough ? 8 : 1;
+    int reps = thorough ? 100 : 3;
     for (int rep = 0; rep < reps; ++rep)
         for (int n : { 2, 4, 8 })
             for (auto &m : mixes()) {
@@ -381,7 +390,7 @@ void gen(vh::Emitter &em, const vh::Options &opt) {
                     emit(n, m.name, len, y, name == "printf" ? 2 : 1);
             }
     // longer single-class runs with many threads (each case stays far below the runner's per-case time limit)
-    for (int rep = 0; rep < (thorough ? 12 : 2); ++rep) {
+    for (int rep = 0; rep < (thorough ? 150 : 4); ++rep) {
         emit(8, "printf", thorough ? 1000 : 500, 0, 2);
         emit(8, "ci", thorough ? 1000 : 500, 2, 1);
         emit(4, "all", thorough ? 1500 : 800, 1, 1);
